@@ -14,6 +14,8 @@
 (*     mu to the goal's mu and a (1 + M mu) is conserved inside a segment.   *)
 (***************************************************************************)
 EXTENDS Integers, Sequences, FiniteSets, SeqX, Rat
+CONSTANT CompressionLeftOfNegInf    \* TRUE (repaired code): the segment R > 1 (mid = +inf) is ordered left of everything, also of the goal R = -inf;
+                                    \* FALSE (pinned): its NaN distance measure is filled with -1 like that of R = -inf, so it has distance 0 from that goal and is never walked
 PInf == <<1, 0>>
 NInf == <<-1, 0>>
 IsInf(r) == r[2] = 0
@@ -31,17 +33,18 @@ FakeMean(R) == IF IsInf(R) THEN <<-1, 1>> ELSE RDiv(RAdd(One, R), RSub(One, R))
 (* ---------------- I: as coded ---------------- *)
 (* a diagram is a sequence of segments [l, r, M] in index order; cycles are [a, R] *)
 Mid(s) == IF IsInf(s.l) /\ IsInf(s.r) THEN Zero ELSE IF IsInf(s.l) THEN s.l ELSE IF IsInf(s.r) THEN s.r ELSE RDiv(RAdd(s.l, s.r), <<2, 1>>)
-Dist(s, Rg) == RSub(FakeMean(Mid(s)), IF Rg = NInf THEN <<-1, 1>> ELSE FakeMean(Rg))
+Dist(s, Rg) == IF CompressionLeftOfNegInf /\ Mid(s) = PInf THEN NInf
+               ELSE RSub(FakeMean(Mid(s)), IF Rg = NInf THEN <<-1, 1>> ELSE FakeMean(Rg))
 (* stable (insertion) sort of segment positions by distance *)
 RECURSIVE InsertSorted(_, _, _, _, _)
 InsertSorted(sorted, i, diag, Rg, asc) ==
   IF sorted = <<>> THEN <<i>>
-  ELSE IF (asc /\ RLt(Dist(diag[i], Rg), Dist(diag[Head(sorted)], Rg))) \/ (~asc /\ RLt(Dist(diag[Head(sorted)], Rg), Dist(diag[i], Rg)))
+  ELSE IF (asc /\ ELt(Dist(diag[i], Rg), Dist(diag[Head(sorted)], Rg))) \/ (~asc /\ ELt(Dist(diag[Head(sorted)], Rg), Dist(diag[i], Rg)))
        THEN <<i>> \o sorted ELSE <<Head(sorted)>> \o InsertSorted(Tail(sorted), i, diag, Rg, asc)
 RECURSIVE SortPos(_, _, _, _)
 SortPos(ps, diag, Rg, asc) == IF ps = <<>> THEN <<>> ELSE InsertSorted(SortPos(FrontOf(ps), diag, Rg, asc), LastOf(ps), diag, Rg, asc)
-LeftSegs(diag, Rg)  == SortPos(Positions(Len(diag), LAMBDA i : RLt(Dist(diag[i], Rg), Zero)), diag, Rg, TRUE)
-RightSegs(diag, Rg) == SortPos(Positions(Len(diag), LAMBDA i : RLt(Zero, Dist(diag[i], Rg))), diag, Rg, FALSE)
+LeftSegs(diag, Rg)  == SortPos(Positions(Len(diag), LAMBDA i : ELt(Dist(diag[i], Rg), Zero)), diag, Rg, TRUE)
+RightSegs(diag, Rg) == SortPos(Positions(Len(diag), LAMBDA i : ELt(Zero, Dist(diag[i], Rg))), diag, Rg, FALSE)
 Contains(s, R, closedLeft) == (IF closedLeft THEN ELe(s.l, R) ELSE ELt(s.l, R)) /\ (IF closedLeft THEN ELt(R, s.r) ELSE ELe(R, s.r))
 GoalSegs(diag, Rg) ==
   LET c1 == Positions(Len(diag), LAMBDA i : Contains(diag[i], Rg, FALSE))       \* right-closed intervals
